@@ -12,34 +12,68 @@ theorem slice?_some {msg : Bytes} {a b : Nat} (h1 : a ≤ b) (h2 : b ≤ msg.len
     slice? msg a b = some ((msg.take b).drop a) := by
   unfold slice?; simp [h1, h2]
 
-/-- quote-tracking invariant needed for the only slice whose bounds are not local (`:233`) -/
-def J (i : Nat) (st : St) : Prop :=
-  (st.cur = .colQuoted → st.prev = .colValue ∧ st.tokenStart + 1 ≤ i) ∧
-  (st.prev = .colQuoted → (st.cur = .colValue ∧ st.tokenStart + 2 ≤ i) ∨ st.cur = .end_)
+theorem valueTok?_bare (msg : Bytes) (ts i : Nat) : valueTok? msg false ts i = slice? msg ts i := by
+  simp [valueTok?]
 
-def StepR.Safe (i : Nat) : StepR → Prop
+theorem index?_lt {msg : Bytes} {n : Nat} (h : n < msg.length) : index? msg n = some (msg.getD n 0) := by
+  simp [index?, List.getD_eq_getElem?_getD, List.getElem?_eq_getElem h]
+
+/-- the cut of a quoted value is in range as soon as the token holds an opening and a closing quote
+(`ts + 2 ≤ i`) and, when it starts with `B` (so that the opening quote is not its first byte),
+one byte more -/
+theorem valueTok?_quoted_some {msg : Bytes} {ts i : Nat} (h2 : ts + 2 ≤ i) (hi : i ≤ msg.length)
+    (hB : msg.getD ts 0 = 66 → ts + 3 ≤ i) : ∃ tok, valueTok? msg true ts i = some tok := by
+  unfold valueTok?
+  rw [index?_lt (by omega)]
+  simp only [if_true]
+  by_cases hb : msg.getD ts 0 = 66
+  · have := hB hb
+    exact ⟨_, by rw [if_pos hb]; exact slice?_some (by omega) (by omega)⟩
+  · exact ⟨_, by rw [if_neg hb]; exact slice?_some (by omega) (by omega)⟩
+
+/-- quote-tracking invariant needed for the index expression `message[startStr]` and the slice
+`message[startStr:endStr]` of a quoted value (the only ones whose bounds are not local): inside a
+quoted section the opening quote lies at or after `TokenStart` — after it, if the token starts
+with `B`; after the closing quote the loop index is one further. -/
+def J (msg : Bytes) (i : Nat) (st : St) : Prop :=
+  (st.cur = .colQuoted → st.prev = .colValue ∧ st.tokenStart + 1 ≤ i ∧
+      (msg.getD st.tokenStart 0 = 66 → st.tokenStart + 2 ≤ i)) ∧
+  (st.prev = .colQuoted → (st.cur = .colValue ∧ st.tokenStart + 2 ≤ i ∧
+      (msg.getD st.tokenStart 0 = 66 → st.tokenStart + 3 ≤ i)) ∨ st.cur = .end_)
+
+def StepR.Safe (msg : Bytes) (i : Nat) : StepR → Prop
   | .done o => o ≠ .panic
-  | .cont skip st' _ => J (if skip then i + 2 else i + 1) st'
+  | .cont skip st' _ => J msg (if skip then i + 2 else i + 1) st'
 
 theorem step_safe (msg : Bytes) (p : Bool) (i : Nat) (st : St) (res : Res)
-    (hi : i ≤ msg.length) (hts : st.tokenStart ≤ i) (hJ : J i st) :
-    (step msg p i st res).Safe i := by
+    (hi : i ≤ msg.length) (hts : st.tokenStart ≤ i) (hJ : J msg i st) :
+    (step msg p i st res).Safe msg i := by
   obtain ⟨h1, h2⟩ := hJ
   have hs1 := slice?_some hts hi
   have hs2 := slice?_some (Nat.le_trans hts hi) (Nat.le_refl msg.length)
+  -- an opening quote at `i` is not the `B` at `TokenStart`
+  have hkey : chrAt msg i = 39 → msg.getD st.tokenStart 0 = 66 → st.tokenStart + 1 ≤ i := by
+    intro hq hb
+    rcases Nat.lt_or_ge st.tokenStart i with h | h
+    · omega
+    · have he : st.tokenStart = i := by omega
+      rw [he] at hb; unfold chrAt at hq; rw [hq] at hb; exact absurd hb (by decide)
   unfold step stepC
   cases hc : st.cur <;> simp only [hs1, hs2]
   case colValue =>
     by_cases hq : st.prev = PS.colQuoted
-    · rcases h2 hq with ⟨_, h⟩ | h
-      · have hs3 := slice?_some (msg := msg) (a := st.tokenStart + 1) (b := i - 1) (by omega) (by omega)
-        simp only [hq, decide_true, if_true, hs3]
+    · rcases h2 hq with ⟨_, h, hB⟩ | h
+      · obtain ⟨tok, hs3⟩ := valueTok?_quoted_some (msg := msg) h hi hB
+        simp only [hq, decide_true, hs3]
         repeat' split
         all_goals (first | (simp_all [StepR.Safe, J, enter]; done) | (simp_all [StepR.Safe, J, enter]; omega))
       · rw [hc] at h; cases h
-    · simp only [hq, decide_false, Bool.false_eq_true, if_false, hs1]
+    · simp only [hq, decide_false, valueTok?_bare, hs1]
       repeat' split
-      all_goals (first | (simp_all [StepR.Safe, J, enter]; done) | (simp_all [StepR.Safe, J, enter]; omega))
+      all_goals first
+        | (simp_all [StepR.Safe, J, enter]; done)
+        | (simp_all [StepR.Safe, J, enter]; omega)
+        | (simp_all [StepR.Safe, J, enter]; intro hb; have := hkey hb; omega)
   all_goals (repeat' split)
   all_goals (try (exact finish_ne_panic _ _ _))
   all_goals (try (simp [StepR.Safe]; done))
@@ -47,7 +81,7 @@ theorem step_safe (msg : Bytes) (p : Bool) (i : Nat) (st : St) (res : Res)
   all_goals (try (simp_all [StepR.Safe, J, enter]; omega))
 
 theorem loop_no_panic (msg : Bytes) (p : Bool) :
-    ∀ i st res, J i st → loop msg p i st res ≠ .panic := by
+    ∀ i st res, J msg i st → loop msg p i st res ≠ .panic := by
   intro i st res
   fun_induction loop msg p i st res
   all_goals intro hJ
@@ -57,7 +91,7 @@ theorem loop_no_panic (msg : Bytes) (p : Bool) :
     constructor
     · intro hc; have := h1 hc; omega
     · intro hp
-      rcases h2 hp with ⟨_, h⟩ | h
+      rcases h2 hp with ⟨_, h, _⟩ | h
       · omega
       · exact Or.inr h
   case case2 i st res hi hts skip st' res' hstep ih =>
